@@ -108,5 +108,7 @@ void h_run(void) {
   }
   if (handed_total != total) sim_violation("C17-item-stranded", "%d items pushed, %d handed to a worker; no worker is active any more", total, handed_total);
   sim_probe("worker_intervals", nint);
+  work_queue_destroy(&wq);
+  free(wq_p);
   sim_finish_ok();
 }
